@@ -113,6 +113,8 @@ def eval3(c, val: Dict[str, Any]) -> frozenset:
         if fb is not None and fb in val and a[0] != "read":
             return _cmp3(c[1], const_value(a), val[fb])
         return BOTH
+    if k == "chain":
+        return eval3(c[1], val)
     if k == "not":
         return frozenset(not x for x in eval3(c[1], val))
     if k == "and":
@@ -137,7 +139,7 @@ def cond_fields(c, acc: Optional[Set[str]] = None) -> Set[str]:
         f = governed_read(c[1])
         if f:
             acc.add(f)
-    elif k == "not":
+    elif k in ("not", "chain"):
         cond_fields(c[1], acc)
     elif k in ("and", "or"):
         cond_fields(c[1], acc)
